@@ -1,7 +1,7 @@
 SPECIFICATION Spec
 CONSTANTS
   MaxLen = 2
-  Syms = {"id", "mut", "ref", "at", "raw", "fnname", "fnname_", "rawfn", "gnext", "gprev", "ugnext", "ugprev", "wild", "tup2", "tup0", "ts1", "ts1w", "st1", "sts", "refp", "tsu", "nest2", "liftfn", "liftfn_", "tsmut", "stref", "tsat"}
+  Syms = {"id", "mut", "ref", "at", "raw", "fnname", "fnname_", "rawfn", "gnext", "gprev", "ugnext", "ugprev", "wild", "tup2", "tup0", "ts1", "ts1w", "st1", "sts", "refp", "tsu", "nest2", "liftfn", "liftfn_", "tsmut", "stref", "tsat", "tsraw"}
   DumpCases = TRUE
 INVARIANTS TypeOK StepwiseIsFinal TakenExact GenFresh Refines OneNamePerParam
 CHECK_DEADLOCK FALSE
